@@ -22,7 +22,7 @@ register(
         "GtModel.C03.mset_reported_eq_sum_partial",
         "GtModel.C03.mset_d21_witness",
     ],
-    streams=["script", "scriptx", "scriptxml", "scriptmset", "script_O", "numeq"],
+    streams=["script", "scriptx", "scriptxml", "scriptmset", "script_O", "numeq", "dataclass"],
     assumptions=[
         "reported_eq_sum / three_views_agree are theorems about the L2 script and have no hypothesis; the link to the cost "
         "the ENGINE reports (bounds() after tightening) is engine_reported_eq_sum_docs = C05.history_independent_docs + "
